@@ -31,6 +31,14 @@ pub trait Family: 'static + Sized + Send + Sync {
     fn encode_async<W: AsyncWrite + Unpin>(p: &Self::Packet, w: &mut W) -> impl std::future::Future<Output = Result<(), Self::Error>>;
     fn header_decode(b: &[u8]) -> Result<Self::Header, Self::Error>;
     fn header_decode_async<R: AsyncRead + Unpin>(r: &mut R) -> impl std::future::Future<Output = Result<Self::Header, Self::Error>>;
+    /// `Header::new_with(first byte, remaining length)`
+    fn header_new_with(hd: u8, rl: u32) -> Result<Self::Header, Self::Error>;
+    /// (type number per the specification through a name-keyed table, dup, qos number, retain, remaining length)
+    fn header_parts(h: &Self::Header) -> (u8, bool, u8, bool, u32);
+    /// `Header::new` from such parts (None if the type number does not exist in this family)
+    fn header_new(parts: (u8, bool, u8, bool, u32)) -> Option<Self::Header>;
+    /// type number (specification) of `Packet::get_type()`
+    fn packet_type_num(p: &Self::Packet) -> u8;
     fn is_eof(e: &Self::Error) -> bool;
     fn common(e: &Self::Error) -> Option<&mqtt_proto::Error>;
     /// the error this family wraps a common error in
@@ -104,6 +112,37 @@ pub fn part<E: Encodable>(name: &'static str, e: &E) -> Part {
 pub struct V3;
 pub struct V5;
 
+/// v3 packet types by name -> type number of MQTT 3.1.1 table 2.1
+const V3_TYPE_TABLE: [(v3::PacketType, u8); 14] = [
+    (v3::PacketType::Connect, 1),
+    (v3::PacketType::Connack, 2),
+    (v3::PacketType::Publish, 3),
+    (v3::PacketType::Puback, 4),
+    (v3::PacketType::Pubrec, 5),
+    (v3::PacketType::Pubrel, 6),
+    (v3::PacketType::Pubcomp, 7),
+    (v3::PacketType::Subscribe, 8),
+    (v3::PacketType::Suback, 9),
+    (v3::PacketType::Unsubscribe, 10),
+    (v3::PacketType::Unsuback, 11),
+    (v3::PacketType::Pingreq, 12),
+    (v3::PacketType::Pingresp, 13),
+    (v3::PacketType::Disconnect, 14),
+];
+
+fn v3_type_num(t: v3::PacketType) -> u8 {
+    V3_TYPE_TABLE.iter().find(|(x, _)| *x == t).map(|(_, n)| *n).unwrap_or(0)
+}
+
+fn qos_of(n: u8) -> Option<mqtt_proto::QoS> {
+    match n {
+        0 => Some(mqtt_proto::QoS::Level0),
+        1 => Some(mqtt_proto::QoS::Level1),
+        2 => Some(mqtt_proto::QoS::Level2),
+        _ => None,
+    }
+}
+
 impl Family for V3 {
     const FAM: Fam = Fam::V3;
     const NTYPES: usize = gen::V3_TYPES;
@@ -140,6 +179,20 @@ impl Family for V3 {
     }
     async fn header_decode_async<R: AsyncRead + Unpin>(r: &mut R) -> Result<Self::Header, Self::Error> {
         v3::Header::decode_async(r).await
+    }
+    fn header_new_with(hd: u8, rl: u32) -> Result<Self::Header, Self::Error> {
+        v3::Header::new_with(hd, rl)
+    }
+    fn header_parts(h: &Self::Header) -> (u8, bool, u8, bool, u32) {
+        (v3_type_num(h.typ), h.dup, project::qos_num(h.qos), h.retain, h.remaining_len)
+    }
+    fn header_new(parts: (u8, bool, u8, bool, u32)) -> Option<Self::Header> {
+        let typ = V3_TYPE_TABLE.iter().find(|(_, n)| *n == parts.0)?.0;
+        let qos = qos_of(parts.2)?;
+        Some(v3::Header::new(typ, parts.1, qos, parts.3, parts.4))
+    }
+    fn packet_type_num(p: &Self::Packet) -> u8 {
+        v3_type_num(p.get_type())
     }
     fn is_eof(e: &Self::Error) -> bool {
         e.is_eof()
@@ -269,6 +322,20 @@ impl Family for V5 {
     }
     async fn header_decode_async<R: AsyncRead + Unpin>(r: &mut R) -> Result<Self::Header, Self::Error> {
         v5::Header::decode_async(r).await
+    }
+    fn header_new_with(hd: u8, rl: u32) -> Result<Self::Header, Self::Error> {
+        v5::Header::new_with(hd, rl)
+    }
+    fn header_parts(h: &Self::Header) -> (u8, bool, u8, bool, u32) {
+        (project::packet_type_num(h.typ), h.dup, project::qos_num(h.qos), h.retain, h.remaining_len)
+    }
+    fn header_new(parts: (u8, bool, u8, bool, u32)) -> Option<Self::Header> {
+        let typ = crate::mutate::packet_type_of(parts.0)?;
+        let qos = qos_of(parts.2)?;
+        Some(v5::Header::new(typ, parts.1, qos, parts.3, parts.4))
+    }
+    fn packet_type_num(p: &Self::Packet) -> u8 {
+        project::packet_type_num(p.get_type())
     }
     fn is_eof(e: &Self::Error) -> bool {
         e.is_eof()
